@@ -1267,6 +1267,7 @@ func externalCase(c *core.Ctx, r *rand.Rand) {
 	// snappy chunk writer / reader, both reused across chunks
 	w := compress.NewSnappyWriter()
 	rd := compress.NewSnappyReader()
+	var prevOut, prevCopy []byte // observation only: Uncompress returns its internal buffer
 	for k := 0; k < 1+r.Intn(4); k++ {
 		c.Branch("snappy-roundtrip")
 		var plain []byte
@@ -1303,6 +1304,12 @@ func externalCase(c *core.Ctx, r *rand.Rand) {
 			if !bytes.Equal(out, plain) {
 				c.Fail("snappy-roundtrip", fmt.Sprintf("chunk %d: %d plain bytes, %d after round trip", k, len(plain), len(out)))
 			}
+			if len(prevCopy) > 0 && !bytes.Equal(prevOut, prevCopy) {
+				// not a loss at the time of the call (callers consume the block before the next
+				// Uncompress); recorded so the evidence shows how often the aliasing is visible
+				c.Branch("snappy-previous-result-overwritten-by-next-uncompress")
+			}
+			prevOut, prevCopy = out, cp(out)
 		}()
 		c.Note(fmt.Sprintf("snappy plain=%d", len(plain)))
 	}
